@@ -156,7 +156,7 @@ const COLLIDING: &[char] = &['a', 'é', '©', '\u{9000}', '\u{07e9}', 'ß', '\u{
 
 /// C18: "every split behaviour with multi-byte patterns": extra split steps with character and string
 /// patterns over one-, two-, three- and four-byte characters and all six behaviours.
-fn c18_spice(rng: &mut Rng, def: &mut Definition) {
+pub fn c18_spice(rng: &mut Rng, def: &mut Definition) {
     let behaviors = [
         SplitBehavior::Match,
         SplitBehavior::Remove,
